@@ -58,6 +58,11 @@ def tcp_step(t, chunk):
     # a header fragment is always kept (a frame split inside its first six octets is not lost)
     if len(s) < 6:
         assert bytes(t._buffer) == s
+    # ... and so is a frame of readable length of which less than that length has arrived - also when its
+    # header is already known to be malformed: skipping it by the header alone would turn the rest of it
+    # into the start of the 'next frame' and lose the frames that follow
+    if len(s) >= 6 and s[0] == 6 and s[4] * 256 + s[5] >= 6 and len(s) < s[4] * 256 + s[5]:
+        assert bytes(t._buffer) == s
     if len(t._buffer) > 0:
         # kept for later: it is all of S, nothing was handed on or skipped
         assert bytes(t._buffer) == s and len(delivered) == 0 and len(recursed) == 0
@@ -163,3 +168,15 @@ def a_proper_prefix_of_a_frame_is_reported_incomplete(data):
     except CouldNotParseKNXIP:
         assert False, "a proper prefix of a frame was reported as malformed"
     assert False, "a proper prefix of a frame was parsed"
+
+
+# ------------------------------------------------------------------ the parser contract the stream reader relies on
+# (KNXIP_STUBS above): raises only CouldNotParseKNXIP, "incomplete" exactly for a proper prefix of a frame,
+# otherwise consumes exactly the announced length - proved over the real KNXIPFrame.from_knx for every service
+# type in C20; an obligation here too, because a parser that calls a complete but malformed frame
+# "incomplete" makes the stream reader wait forever and lose everything that follows.
+
+from contracts import c20_knxip_parse as _c20  # noqa: E402
+from pyvc.api import rely_on  # noqa: E402
+
+rely_on("C22", _c20.frame_from_knx_total)
